@@ -77,7 +77,14 @@ def run(ctx, rep):
     # payload field before the handle exists (R-INIT of C06 over every allocation-to-handle region of the crate)
     from . import c06
 
-    c06.rule_init(ctx, rep)
+    def scope(F):
+        cache = F.__dict__.setdefault("_serde_scope", None)
+        if cache is None:
+            roots = [b for h in ("Arc", "UniqueArc") for b in F.method(h, "deserialize", "Deserialize")]
+            cache = F.__dict__["_serde_scope"] = balance.scope_closure(F, roots)
+        return cache
+
+    c06.rule_init(ctx, rep, scope=scope)  # (the constructors the Deserialize impls reach)
     seen_cfg = 0
     for tag, F, E in ctx.each():
         A = balance.analysis(tag, F, E)
